@@ -515,6 +515,16 @@ func (e *Engine) tryStub(name string, fn *ssa.Function, args []Value, g *Term, p
 			return args[0].(StructV).f[1], true
 		case "SameObject":
 			return e.sameObject(args[0], args[1]), true
+		case "Registered":
+			kind, _ := concreteStr(args[0])
+			key, ok := concreteStr(args[1])
+			if !ok {
+				panic(unsupported("vrt.Registered with a symbolic key"))
+			}
+			if r, ok := e.registered[kind+"/"+key]; ok {
+				return TupleV{[]Value{r[0], r[1]}}, true
+			}
+			return TupleV{[]Value{IfaceV{}, IfaceV{}}}, true
 		}
 		return nil, false
 	}
@@ -683,8 +693,18 @@ func (e *Engine) tryStub(name string, fn *ssa.Function, args []Value, g *Term, p
 		e.StubsUsed[name]++
 		return Fresh("duration", 64), true
 	case "github.com/obolnetwork/charon/p2p.RegisterHandler":
-		// stream handler registration on the libp2p host: no effect on the logic under test
-		e.StubsUsed[name]++
+		// stream handler registration on the libp2p host: recorded (protocol id -> request factory, handler) so that a
+		// harness can drive the handlers the way a stream would (vrt.Registered)
+		e.StubsUsed[name+" (registration recorded for vrt.Registered)"]++
+		if key, ok := concreteStr(args[2]); ok {
+			if e.registered == nil {
+				e.registered = map[string][2]Value{}
+			}
+			mkI := func(i int) Value {
+				return IfaceV{[]IfaceAlt{{TS.True, sig.Params().At(i).Type(), args[i]}}}
+			}
+			e.registered["p2p.RegisterHandler/"+key] = [2]Value{mkI(3), mkI(4)}
+		}
 		return nil, true
 	case "time.Sleep", "runtime.Gosched", "runtime.KeepAlive":
 		return nil, true
